@@ -121,7 +121,7 @@ func WorkerMain(id, tier string, shard, n int) int {
 			time.Sleep(2 * time.Second)
 			var ms runtime.MemStats
 			runtime.ReadMemStats(&ms)
-			fmt.Fprintf(os.Stdout, "{\"t\":\"hb\",\"sys\":%d}\n", ms.Sys)
+			fmt.Fprintf(os.Stdout, "{\"t\":\"hb\",\"sys\":%d,\"ev\":%d}\n", ms.Sys, c.progress())
 		}
 	}()
 	ck.Run(c)
@@ -176,7 +176,7 @@ func runWorker(self, id, tier string, shard, n int, journal bool) workerResult {
 			case <-stop:
 				return
 			case <-t.C:
-				if time.Since(time.Unix(0, atomic.LoadInt64(&last))) > 180*time.Second {
+				if time.Since(time.Unix(0, atomic.LoadInt64(&last))) > 120*time.Second {
 					res.hung = true
 					_ = cmd.Process.Kill()
 					return
@@ -186,13 +186,19 @@ func runWorker(self, id, tier string, shard, n int, journal bool) workerResult {
 	}()
 	sc := bufio.NewScanner(stdout)
 	sc.Buffer(make([]byte, 1<<20), 1<<28)
+	lastEv, lastProgress := int64(-1), time.Now().UnixNano()
 	for sc.Scan() {
 		line := sc.Bytes()
 		atomic.StoreInt64(&last, time.Now().UnixNano())
 		switch {
 		case bytes.HasPrefix(line, []byte(`{"t":"hb"`)):
-			var hb struct{ Sys int64 }
+			var hb struct{ Sys, Ev int64 }
 			_ = json.Unmarshal(line, &hb)
+			if hb.Ev == lastEv { // a heartbeat without progress does not count as a sign of life
+				atomic.StoreInt64(&last, lastProgress)
+			} else {
+				lastEv, lastProgress = hb.Ev, time.Now().UnixNano()
+			}
 			if hb.Sys > 6<<30 {
 				res.stderr = "worker memory above 6 GiB; killed"
 				_ = cmd.Process.Kill()
